@@ -23,7 +23,7 @@ def fam_affine(rng, n, big=False):
     fam = Family("affine_utility",
                  "utility replaced by a*utility+b (a>0): every value must become a*V + b*sum_{k<T-t} beta^k; lcm vs "
                  "lcm, aligned by position (same layout); non-trivial = >= 2 periods")
-    bases = e2e.gen_cases(rng, n, features=[set(), {"stochastic"}, {"filter"}, {"constraint"}])
+    bases = e2e.gen_cases(rng, n, features=[{"period_filter"}, {"two_stochastic"}, set(), {"stochastic"}, {"filter"}, {"constraint"}])
     cases, info = [], []
     for c in bases:
         m, p = c["_mspec"], c["_params"]
@@ -68,10 +68,12 @@ def fam_beta_zero(rng, n):
                  "with beta = 0 the values of every period must not depend on the transition functions: the same "
                  "model with all deterministic transitions replaced by other ones gives identical arrays; and "
                  "the last-period array is unchanged by beta; all non-trivial")
-    bases = e2e.gen_cases(rng, n, features=[set(), {"constraint"}, {"filter"}])
+    bases = e2e.gen_cases(rng, n, features=[{"period_filter"}, set(), {"constraint"}, {"filter"}])
     cases, info = [], []
     for c in bases:
         m, p = c["_mspec"], copy.deepcopy(c["_params"])
+        if any(a.startswith("next_") for f in m["functions"] for a in f["args"]):
+            continue            # a function reads the output of a transition: transitions matter even with beta = 0
         p["beta"] = Fraction(0)
         m2 = copy.deepcopy(m)
         grids = dict((n_, g) for n_, g in m["states"])
@@ -166,7 +168,7 @@ def fam_degenerate(rng, n):
     fam = Family("degenerate_transitions",
                  "stochastic states whose transition rows are all unit vectors e_g(deps) vs the same model with "
                  "the deterministic transition g: identical solutions; all non-trivial")
-    bases = e2e.gen_cases(rng, n, features=[{"stochastic"}, {"stochastic", "filter"}, {"stochastic", "constraint"}])
+    bases = e2e.gen_cases(rng, n, features=[{"two_stochastic"}, {"stochastic"}, {"two_stochastic", "filter"}, {"stochastic", "constraint"}])
     cases, info = [], []
     for c in bases:
         r = meta.degenerate(rng, c["_mspec"], c["_params"])
